@@ -44,37 +44,39 @@ def main() -> int:
     # every extractor module is rendered separately; a module that fails on the current source, or whose changed
     # rendering breaks the model build, falls back to its frozen rendering (so the driver keeps building for the
     # other properties) and marks the properties that own it as 'proof obligation broken'
-    status = gen_tables.regenerate()
-    failed = [n for n, st in status.items() if st.startswith("failed")]
-    changed = [n for n, st in status.items() if st == "changed"]
-    ok_drv, log1 = core.lake_build(["fcdrv"])
-    broken_tables = list(failed)
-    if not ok_drv and changed:
-        ctx.build_log += "model/driver does not build with the regenerated tables of: " + ", ".join(changed) + "\n" + log1[-2000:]
-        status2 = gen_tables.regenerate(use_lastgood=changed)
+    with core.BuildLock():
+        status = gen_tables.regenerate()
+        failed = [n for n, st in status.items() if st.startswith("failed")]
+        changed = [n for n, st in status.items() if st == "changed"]
         ok_drv, log1 = core.lake_build(["fcdrv"])
-        broken_tables += changed
-    for n in failed:
-        ctx.build_log += f"translator {n} failed on the current source: {status[n]}\n"
-    owners = gen_tables.broken_owners(status, broken_tables) if broken_tables else set()
-    tables_ok = not (prop in owners or "*" in owners)
-    ctx.extra["tables"] = {"status": status, "frozen_fallback_for": broken_tables}
-    if broken_tables:
-        ctx.notes.append(f"table extractors broken: {broken_tables} (owners {sorted(owners)})")
-    ctx.driver_ok = ok_drv
-    ok_prf, log2 = (False, "no Props file")
-    if core.props_modules(prop):
-        ok_prf, log2 = core.lake_build(core.props_modules(prop))
-    ok_prf = ok_prf and tables_ok
-    ctx.proofs_ok = ok_prf
-    ctx.build_log += ("" if ok_drv else log1[-4000:]) + ("" if ok_prf else log2[-4000:])
+        broken_tables = list(failed)
+        if not ok_drv and changed:
+            ctx.build_log += "model/driver does not build with the regenerated tables of: " + ", ".join(changed) + "\n" + log1[-2000:]
+            status2 = gen_tables.regenerate(use_lastgood=changed)
+            ok_drv, log1 = core.lake_build(["fcdrv"])
+            broken_tables += changed
+        for n in failed:
+            ctx.build_log += f"translator {n} failed on the current source: {status[n]}\n"
+        owners = gen_tables.broken_owners(status, broken_tables) if broken_tables else set()
+        tables_ok = not (prop in owners or "*" in owners)
+        ctx.extra["tables"] = {"status": status, "frozen_fallback_for": broken_tables}
+        if broken_tables:
+            ctx.notes.append(f"table extractors broken: {broken_tables} (owners {sorted(owners)})")
+        ctx.driver_ok = ok_drv
+        ok_prf, log2 = (False, "no Props file")
+        if core.props_modules(prop):
+            ok_prf, log2 = core.lake_build(core.props_modules(prop))
+        ok_prf = ok_prf and tables_ok
+        ctx.proofs_ok = ok_prf
+        ctx.build_log += ("" if ok_drv else log1[-4000:]) + ("" if ok_prf else log2[-4000:])
 
     # ---- S1: audit
     hits = core.textual_audit()
     if hits:
         print("AUDIT: forbidden tokens in the Lean sources:", hits)
         return EXIT_INFRA
-    obligations = core.axioms_audit(prop) if ok_prf else {n: None for n in core.theorem_names(prop)}
+    with core.BuildLock():
+        obligations = core.axioms_audit(prop) if ok_prf else {n: None for n in core.theorem_names(prop)}
     bad_ax = {n: a for n, a in obligations.items() if a is not None and not set(a) <= core.ALLOWED_AXIOMS}
     if bad_ax:
         print("AUDIT: theorems depending on non-standard axioms:", bad_ax)
